@@ -1,13 +1,16 @@
 """C05 - responses are protocol-valid and length-consistent on both server interfaces."""
 PROP = 'C05'
-LEAN_MODULES = ['FalconModel.FinalizeProofs', 'FalconModel.FinalizeProofs2']
-DRIVERS = ['fzdriver']
+LEAN_MODULES = ['FalconModel.FinalizeProofs', 'FalconModel.FinalizeProofs2', 'FalconModel.FinalizeTraceProofs']
+DRIVERS = ['fzdriver', 'fztdriver']
 THEOREMS = [
     'Fz.wsgi_asgi_agree', 'Fz.bodiless_no_payload', 'Fz.content_length_exact',
     'Fz.body_precedence', 'Fz.typeless_no_default_content_type_partial', 'Fz.otherwise_has_content_type',
     'Fz.asgi_bodiless_no_payload', 'Fz.asgi_content_length_exact', 'Fz.asgi_body_precedence',
     'Fz.renderBody_fst', 'Fz.renderBody_frame', 'Fz.renderBody_headers',
     'Fz.getKey_setKey', 'Fz.getKey_append_left',
+    # event-level ASGI emission with a failing send() at any index and a close() counter (FinalizeTrace.lean)
+    'Fz.trace_wellformed', 'Fz.closed_exactly_once', 'Fz.closes_zero_otherwise', 'Fz.closes_le_one', 'Fz.trace_start',
+    'Fz.trace_refines_asgi', 'Fz.loopIter_open', 'Fz.loopFile_open', 'Fz.loopIter_drain', 'Fz.loopFile_drain',
     # F16 (known finding, stays in the code): the negation of the unrestricted "typeless" statement, by `decide`
     'Fz.f16_witness',
 ]
@@ -22,6 +25,11 @@ STATEMENTS = {
     'Fz.body_precedence': 'non-HEAD, body-bearing status: the payload is text if set, else data if set, else the rendered media if set, else the chunks the stream delivers up to its end or failing call, else empty',
     'Fz.typeless_no_default_content_type_partial': 'a 204/304 whose application state has no Content-Type carries none in what the server receives, unless media is the body source that gets rendered (that exception is F16)',
     'Fz.otherwise_has_content_type': 'every response whose status is not 204/304 carries a Content-Type when the app has a default media type',
+    'Fz.trace_wellformed': 'ASGI, for every response state, every failing stream call and every failing send() index: what is handed to send is exactly one start event first, then body events of which only the last has more_body false, nothing afterwards; a run ended by an exception sent nothing, or the start event followed only by body events with more_body true',
+    'Fz.closed_exactly_once': 'ASGI: once streaming has begun (non-HEAD, body-bearing status, body taken from the stream, start event sent) close() is called exactly once - whether streaming completes, the stream raises at any call or send() fails at any index',
+    'Fz.closes_zero_otherwise': 'ASGI: close() is not called when streaming did not begin (HEAD/bodiless, another body source wins, or the start event could not be sent)',
+    'Fz.trace_start': 'the first event, if any, is the start event carrying the status and header list of Fz.asgi (so all header theorems apply to it)',
+    'Fz.trace_refines_asgi': 'without a send() fault the bodies of the body events are exactly the chunk list of Fz.asgi and an exception leaves __call__ exactly when the stream failed (ties the event-level model to the model of the other theorems)',
     'Fz.f16_witness': 'F16: a 204 whose body was given as media carries a Content-Type the application never set',
 }
 TRUSTED = [
@@ -31,7 +39,7 @@ TRUSTED = [
 ]
 ASSUMPTIONS = [
     'status values are valid (int 100..999, status line "NNN reason", http.HTTPStatus); header names/values the application sets are latin-1 tokens/strings',
-    'stream close-exactly-once, the more_body pattern under faults and SSE framing are carried by the protocol monitors/oracles on the real code (the Lean model has no close counter and no SSE)',
+    'WSGI: close()-exactly-once rests on the server calling close() on the returned iterable (PEP 3333) - checked on the real code by the monitor playing the server (all abandon points), no theorem; SSE framing: oracle only (no Lean model)',
     'render-time errors (media with an unsupported type / unserialisable) and responders that raise are outside the Lean model: oracle only',
     'F16 stays in the code: 204/304 + media + no explicit type is reported as KNOWN-FINDING, any other framework-supplied Content-Type on 204/304 is a violation',
 ]
@@ -138,7 +146,14 @@ def run(ctx):
         return apps[key]
 
     sess = ctx.session('tails of falcon.App.__call__ / falcon.asgi.App.__call__ = Fz model (status, header list in order, chunks, stream-error propagation)', 'fzdriver')
+    sess_t = ctx.session('events handed to ASGI send() under stream faults and send() faults at every index + close() count = Fz.asgiTrace', 'fztdriver')
     f16_reported = [0]
+    hangs = [0]
+
+    def trace_case(p, rec, probe, snap, send_fail_at):
+        if R.in_model(p) and 'hdr' in snap and not rec['hang']:
+            sess_t.case({'plan': p, 'send_fail_at': send_fail_at})
+            sess_t.op(R.fzt_line(p, snap, send_fail_at), R.fzt_show(rec['sent'], probe.closed if probe else 0, rec['app_exc'] is not None))
 
     # ------------------------------------------------------------------ one run on one stack
     def go_wsgi(p, abandon_after=None):
@@ -158,7 +173,7 @@ def run(ctx):
         return rec, CUR['probe'], CUR['snap']
 
     def go_asgi(p, send_fail_at=None):
-        for timeout in (5.0, 60.0):  # a starved worker may need seconds; only a repeated expiry counts as "did not return"
+        for timeout in (3.0, 20.0):  # a starved worker may need seconds; only a repeated expiry counts as "did not return"
             CUR.update(plan=p, snap={}, probe=None)
             w = H.Wire(method=p['method'], target='/', headers=[('Host', 'localhost')])
             rec = loop.run_until_complete(H.drive_asgi(get_app(True, p), H.asgi_scope(w), H.asgi_events(b''), send_fail_at=send_fail_at, timeout=timeout))
@@ -177,6 +192,7 @@ def run(ctx):
         # --- protocol monitors
         if not asgi:
             if rec.get('hang'):
+                hangs[0] += 1
                 ctx.oracle('pep3333', False, 'the application did not return', case)
                 return
             mon = H.pep3333_monitor(rec)
@@ -195,6 +211,8 @@ def run(ctx):
             started = True
         else:
             mon = H.asgi_monitor(rec)
+            if rec['hang']:
+                hangs[0] += 1
             ex = rec['app_exc']
             if ex is not None:
                 allowed = (isinstance(ex, R.StreamFault) and sfail is not None) or (isinstance(ex, OSError) and rec['send_failed'] and not isinstance(ex, R.StreamFault))
@@ -332,6 +350,7 @@ def run(ctx):
         pa = p
         arec, aprobe, asnap = go_asgi(pa)
         judge('asgi', pa, arec, aprobe, {})
+        trace_case(pa, arec, aprobe, asnap, None)
         key = json.dumps(p, sort_keys=True, default=repr)
         nontriv = any(p[k] is not None for k in ('text', 'data', 'media', 'stream', 'sse', 'raise'))
         ctx.seen(('w', key), nontriv)
@@ -352,7 +371,10 @@ def run(ctx):
             ctx.count('oracle_only')
         return wrec, arec
 
-    for ci in range(ctx.n(30000, 200000)):
+    for ci in range(ctx.n(12000, 160000)):
+        if hangs[0] >= 2:
+            ctx.notes.append(f'shard {ctx.shard[0]}: stopped after case {ci}: the application repeatedly did not return (reported as oracle failures)')
+            break
         p = R.gen_plan(rnd)
         fs = final_state(R, p, False)
         wrec, arec = both(p)
@@ -384,19 +406,22 @@ def run(ctx):
         # ASGI: send() fails at every event index of the fault-free exchange
         if streamed or p['sse'] is not None or rnd.random() < 0.3:
             for k in range(len(arec['attempts']) + 1 if arec else 0):
-                rec, probe, _ = go_asgi(p, send_fail_at=k)
+                rec, probe, snap = go_asgi(p, send_fail_at=k)
                 judge('asgi', p, rec, probe, {'send_fail_at': k})
+                trace_case(p, rec, probe, snap, k)
                 ctx.seen(('a-sendfail', json.dumps(p, sort_keys=True, default=repr), k), True)
                 ctx.count('asgi_send_fault_runs')
     sess.finish()
+    sess_t.finish()
     loop.close()
 
 
 LEVEL_TEXT = ('Machine-checked theorems (Lean 4) over a model of the tails of falcon.App.__call__ and falcon.asgi.App.__call__: body precedence, no payload on HEAD/1xx/204/304, '
-              'forced exact Content-Length, Content-Type presence/absence (with the F16 exception made explicit and witnessed), and WSGI = ASGI on every response state. '
+              'forced exact Content-Length, Content-Type presence/absence (with the F16 exception made explicit and witnessed), WSGI = ASGI on every response state, and - on an event-level model '
+              'of the ASGI emission with a failing send() at any index - the start/body/more_body framing and close()-exactly-once under every stream and send fault. '
               'The model is tied to the real apps on every run by a differential correspondence (exact status, header list in order, chunk list, stream-error propagation, both interfaces); '
               'two independent protocol monitors written from PEP 3333 and the ASGI HTTP spec plus statement oracles decide failing inputs, with fault injection at every stream-call, '
               'server-abandon and send index.')
-LEVEL_NOTE = ('Trusted: Lean kernel + standard axioms; harness, monitors and oracles; the WSGI server duty to call close(). close-exactly-once, more_body under faults and SSE are '
-              'checked on the real code by the monitors only (no theorem). F16 is a recorded known finding.')
+LEVEL_NOTE = ('Trusted: Lean kernel + standard axioms; harness, monitors and oracles; the WSGI server duty to call close() (WSGI close-once and SSE framing are checked on the real code by '
+              'the monitors only, no theorem). F16 is a recorded known finding.')
 TECHNIQUE = 'Lean 4 model + theorems of response finalization, differential correspondence model vs. real apps, independent PEP 3333 / ASGI protocol monitors with exhaustive fault-point injection'
